@@ -3,7 +3,7 @@
 //! each call under catch_unwind, in a child process (abort / signal / OOM are caught), with a
 //! counting allocator bounding the largest single request.
 
-use crate::aead::{self, Fam, Keys, Verdict, OPEN, SENTINEL};
+use crate::aead::{self, open_all, Keys, Verdict, SENTINEL};
 use crate::core::*;
 use crate::sodium;
 use base64::Engine;
@@ -94,7 +94,7 @@ struct Target {
 
 fn targets() -> Vec<Target> {
     let mut v: Vec<Target> = vec![];
-    for o in OPEN.iter() {
+    for o in open_all().iter() {
         let fam = o.1;
         let f = o.2;
         v.push(Target {
